@@ -1,14 +1,257 @@
-// Package c13 is the correspondence area of property C13 (stub: the slice is not built yet).
+// Package c13 is the correspondence area of property C13: streamed responses are framed one
+// message per record. Every case runs the REAL webbridge.TranscodedHTTPBridge or
+// webbridge.TranscodedWebSocketBridge behind an httptest.Server, with a fake routing.HTTPRouter and
+// a scripted target ClientConn; an independent NDJSON / SSE / WebSocket client reads the records back.
 package c13
 
 import (
+	"fmt"
 	"math/rand"
+	"strings"
+	"sync"
+
+	"verif/harness/common"
 )
 
 type Area struct{}
 
 func (Area) Name() string { return "c13" }
 
-func (Area) Exec(input string) string { return "UNIMPLEMENTED" }
+func (Area) Exec(input string) string {
+	f := strings.Fields(input)
+	if len(f) == 0 {
+		return "BADOP"
+	}
+	switch f[0] {
+	case "http":
+		return execHTTP(f)
+	case "ws":
+		return execWS(f)
+	}
+	return "BADOP"
+}
 
-func (Area) Gen(r *rand.Rand, tier string, emit func(string)) {}
+var (
+	distMu sync.Mutex
+	dist   = map[string]int{}
+)
+
+func note(k string) {
+	distMu.Lock()
+	dist[k]++
+	distMu.Unlock()
+}
+
+func (Area) Extra() map[string]any {
+	distMu.Lock()
+	defer distMu.Unlock()
+	out := map[string]any{}
+	for k, v := range dist {
+		out[k] = v
+	}
+	return map[string]any{"generator_distribution": out}
+}
+
+// ---- generators -----------------------------------------------------------------------------------
+
+var nasty = []string{
+	"", "a", "hello world", `"`, `\`, `"quoted" \back\`, "line1\nline2", "\n", "\n\n", "\r", "\r\n", "a\r\n\r\nb",
+	"tab\there", " ", " ", "x y z", "ünïcödé", "日本語テキスト", "😀🎉", "data:", "data: x\n\ndata: y",
+	"\ndata:injected\n\n", ":comment", " leading space", "trailing space ", "</script><!--", "&<>'", "{\"text\":\"nested\"}",
+	"\x00", "\x01\x02\x1f", "\x7f", "null", "[]", "0", "event: x\nid: 1", "retry: 10", "\u0085", "\ufeff", "a,b;c:d",
+}
+
+func randText(r *rand.Rand, maxLen int) string {
+	switch r.Intn(10) {
+	case 0, 1, 2:
+		return common.Pick(r, nasty)
+	case 3, 4:
+		return common.Pick(r, nasty) + common.Pick(r, nasty)
+	case 5:
+		// random runes including separators and controls
+		n := r.Intn(12)
+		var sb strings.Builder
+		pool := []rune{'\n', '\r', '"', '\\', ' ', ':', 'd', 'a', 't', 0x2028, 0x2029, 'é', '世', 0x1F600, '\t', '{', '}', ',', 0, 0x1f}
+		for i := 0; i < n; i++ {
+			sb.WriteRune(pool[r.Intn(len(pool))])
+		}
+		return sb.String()
+	case 6:
+		n := r.Intn(maxLen + 1)
+		return strings.Repeat(common.Pick(r, []string{"x", "é", "\n", "\"", "世"}), n)
+	default:
+		n := r.Intn(20)
+		b := common.RandBytes(r, n, []byte("abcdefghij klmnop\"\\\n:,{}[]"))
+		return string(b)
+	}
+}
+
+func hexTexts(xs []string) string {
+	var out []string
+	for _, x := range xs {
+		out = append(out, common.HexS(x))
+	}
+	return joinList(out)
+}
+
+var acceptMenu = [][]string{
+	nil, {"text/event-stream"}, {"text/event-stream"}, {"application/json"}, {"application/json", "text/event-stream"},
+	{"text/event-stream", "application/json"}, {"*/*"}, {"text/event-stream, application/json"}, {"application/x-protobuf"},
+	{"text/event-stream; q=1"}, {"TEXT/EVENT-STREAM"}, {"text/html", "text/event-stream"}, {"text/html"},
+	{"text/event-stream", "application/x-protobuf"}, {"text/event-stream", "text/event-stream"}, {""},
+}
+
+var ctypeMenu = [][]string{
+	nil, nil, nil, {"application/json"}, {"application/json; charset=utf-8"}, {"APPLICATION/JSON"}, {" application/json "},
+	{"text/plain"}, {"application/x-protobuf"}, {"text/plain", "application/json"}, {"text/event-stream"}, {"application/jsonx"},
+}
+
+var errCodes = []int{1, 2, 3, 4, 5, 6, 7, 8, 9, 10, 11, 12, 13, 14, 15, 16, 17, 99}
+
+func randEnd(r *rand.Rand) string {
+	if r.Intn(3) > 0 {
+		return "ok"
+	}
+	msg := common.Pick(r, []string{"boom", "", "something failed: x", "naïve ünïcödé message", strings.Repeat("long ", 30),
+		strings.Repeat("é", 70), strings.Repeat("a", 114) + "é", strings.Repeat("a", 113) + "é", strings.Repeat("a", 112) + "世",
+		strings.Repeat("x", 200), "multi\nline"})
+	return fmt.Sprintf("e%d:%s", common.Pick(r, errCodes), common.HexS(msg))
+}
+
+func b01(b bool) string {
+	if b {
+		return "1"
+	}
+	return "0"
+}
+
+func genHTTP(r *rand.Rand, maxMsgs int) string {
+	cs, ss := false, true
+	switch r.Intn(10) {
+	case 0:
+		cs, ss = false, false
+	case 1:
+		cs, ss = true, true
+	case 2:
+		cs, ss = true, false
+	}
+	acc := common.Pick(r, acceptMenu)
+	ct := common.Pick(r, ctypeMenu)
+	rbp := common.Pick(r, []string{"w", "w", "w", "text", "items", "sub"})
+	n := r.Intn(maxMsgs + 1)
+	if !ss {
+		n = 1
+	}
+	var msgs []string
+	for i := 0; i < n; i++ {
+		msgs = append(msgs, randText(r, 300))
+	}
+	end := randEnd(r)
+	if !ss && end != "ok" {
+		msgs = nil
+	}
+	lock := ss && n >= 2 && n <= 6 && r.Intn(3) == 0
+	note(fmt.Sprintf("http cs=%v ss=%v sseAccept=%v", cs, ss, contains(acc, "text/event-stream")))
+	return fmt.Sprintf("http %s %s %s %s %s %s %s %s", b01(cs), b01(ss), hexTexts(acc), hexTexts(ct), rbp, b01(lock), hexTexts(msgs), end)
+}
+
+func contains(xs []string, s string) bool {
+	for _, x := range xs {
+		if x == s {
+			return true
+		}
+	}
+	return false
+}
+
+func genWS(r *rand.Rand, maxFrames int) string {
+	cs, ss := r.Intn(2) == 0, r.Intn(4) > 0
+	body := r.Intn(4) > 0
+	if cs {
+		body = r.Intn(8) > 0
+	}
+	codec := "j"
+	if r.Intn(5) == 0 {
+		codec = "b"
+	}
+	expectBinary := codec == "b"
+	nf := r.Intn(maxFrames + 1)
+	var frames []string
+	good, terminal, started := 0, false, cs || !body
+	for i := 0; i < nf; i++ {
+		bin := expectBinary
+		mal := false
+		switch r.Intn(12) {
+		case 0:
+			bin = !bin
+		case 1:
+			mal = true
+		}
+		txt := randText(r, 40)
+		if len(txt) > 100 {
+			txt = txt[:0]
+		}
+		op, kind := "t", "g"
+		if bin {
+			op = "b"
+		}
+		if mal {
+			kind = "m"
+		}
+		frames = append(frames, fmt.Sprintf("%s%s:%s", op, kind, common.HexS(txt)))
+		effective := cs || (body && i == 0)
+		if effective {
+			if bin != expectBinary || (mal && body) {
+				terminal = true
+				break // nothing is sent after the frame that ends the call
+			}
+			good++
+			started = true
+		}
+	}
+	nr := r.Intn(5)
+	if !ss {
+		nr = 1
+	}
+	var resp []string
+	for i := 0; i < nr; i++ {
+		resp = append(resp, randText(r, 200))
+	}
+	end := randEnd(r)
+	closeMode := "srv"
+	readN := 0
+	if !terminal {
+		switch {
+		case !started:
+			// nothing will ever start the call: only the client can end it
+			end = "hang"
+		case r.Intn(4) == 0:
+			end = "hang"
+		}
+		if end == "hang" {
+			closeMode = common.Pick(r, []string{"cli", "cli", "drop"})
+			if started && ss {
+				readN = len(resp)
+			}
+		}
+	}
+	if !ss && end != "ok" && end != "hang" && r.Intn(2) == 0 {
+		resp = nil
+	}
+	gap := common.Pick(r, []int{0, 0, 0, 100, 500, 2000})
+	note(fmt.Sprintf("ws cs=%v ss=%v body=%v codec=%s terminal=%v close=%s", cs, ss, body, codec, terminal, closeMode))
+	return fmt.Sprintf("ws %s %s %s %s %s %s %s %d %s %d", b01(cs), b01(ss), b01(body), codec, joinList(frames), hexTexts(resp), end, gap, closeMode, readN)
+}
+
+func (Area) Gen(r *rand.Rand, tier string, emit func(string)) {
+	nHTTP, nWS, maxMsgs, maxFrames := 260, 140, 6, 5
+	if tier == "thorough" {
+		nHTTP, nWS, maxMsgs, maxFrames = 12000, 4000, 40, 12
+	}
+	for i := 0; i < nHTTP; i++ {
+		emit(genHTTP(r, maxMsgs))
+	}
+	for i := 0; i < nWS; i++ {
+		emit(genWS(r, maxFrames))
+	}
+}
